@@ -332,10 +332,12 @@ def m_c04(ctx, st):
             allowed |= {("listing", (pl["kowner"], lid)), ("listing", (a, lid)), ("bucket", (a, bid)), ("bucket", (pl["kowner"], bid))}
             # only a *valid* purchase may take a listing from its owner: finalized and unsold before
             expired = pl["exp"] is not None and int(pl["exp"]) < int(st["pre"]["time_ns"])
-            if pl["kowner"] != a and (pl["status"] != "FinalizedReady" or pl["claimant"] is not None or expired):
+            reserved = pl["wl"] is not None and pl["wl"] != a
+            if pl["kowner"] != a and (pl["status"] != "FinalizedReady" or pl["claimant"] is not None or expired or reserved):
                 ctx.add("C04", "foreign_record_taken_by_invalid_purchase", st["i"],
-                        "%s bought listing %d of %s although it was %s / claimant %r%s" % (a, lid, pl["kowner"], pl["status"], pl["claimant"],
-                                                                                          " / expired" if expired else ""))
+                        "%s bought listing %d of %s although it was %s / claimant %r%s%s" % (a, lid, pl["kowner"], pl["status"], pl["claimant"],
+                                                                                            " / expired" if expired else "",
+                                                                                            " / reserved for %s" % pl["wl"] if reserved else ""))
             # the proceeds are filed under (seller, bid): a record the seller already holds there must not be overwritten
             if pl["kowner"] != a and (pl["kowner"], bid) in bmap(st["pre"]):
                 ctx.add("C04", "foreign_record_overwritten", st["i"], "bucket %r of the seller was overwritten by %s's purchase" % ((pl["kowner"], bid), a))
@@ -363,6 +365,10 @@ def m_c05(ctx, st):
         return
     k, m, dep, path = mm
     a = actor(op)
+    if op["t"] == "exec" and op["msg"]["k"] in ("receive", "receive_nft") and any(int(x) > 0 for _, x in op["funds"]):
+        # a token hook deposits exactly the token it announces: coins attached to the notification are not part of
+        # any deposit, so an accepted one has moved assets that no record states (whoever the calling contract is)
+        ctx.add("C05", "hook_accepted_with_coins", st["i"], "%s from %s accepted with %r attached: the coins are in no record" % (op["msg"]["k"], op["sender"], op["funds"]))
     if a in ctx.hostiles:
         return
     wp, wq = wallets(st["pre"]), wallets(st["post"])
@@ -789,6 +795,11 @@ def m_c13(ctx, st, hist):
         now_s = int(pre["time_ns"]) // NANOS
         if now_s - hist["last_switch"] < WEEK:
             ctx.add("C13", "switched_too_early", st["i"], "switched %d s after the previous switch / instantiation" % (now_s - hist["last_switch"]))
+        else:
+            # to the nanosecond: the stored origin is rounded down to whole seconds, the elapsed time must not be rounded up
+            el_ns = int(pre["time_ns"]) - last_switch_ns(ctx.s, st["i"])
+            if el_ns < WEEK * NANOS:
+                ctx.add("C13", "switched_too_early", st["i"], "switched %d.%09d s after the previous switch / instantiation" % (el_ns // NANOS, el_ns % NANOS))
         hist["last_switch"] = now_s
     if cyc and not op["funds"] and op.get("fail") is None:
         if el > WEEK and st["outcome"] != "ok":
@@ -951,6 +962,16 @@ def m_c19(ctx, st):
             ctx.add("C19", "non_deposit_debited_sender", st["i"], "%s reduced its sender's assets: %r" % (k, sorted(d.items())))
 
 
+def last_switch_ns(sess, i):
+    """Exact block time (ns) of the last switch of the fee denomination before step i, or of the instantiation."""
+    for st in reversed(sess.steps[:i]):
+        if st["pre"]["fee"] != st["post"]["fee"]:
+            return int(st["pre"]["time_ns"])
+    o = sess.obs0
+    t = int(o["time_ns"])
+    return t if t // NANOS == int(o["fee"]["last"]) else int(o["fee"]["last"]) * NANOS
+
+
 def new_hist(sess):
     return {"bought": Counter(), "claimed_l": Counter(), "deleted_l": Counter(), "removed_b": Counter(),
             "seen_l": {}, "created": Counter(), "charged": Counter(), "pool_in": Counter(),
@@ -981,6 +1002,26 @@ def m_reentrant(ctx, st):
         if still is not None:
             ctx.add("C07", "paid_out_record_still_stored", st["i"], "%s of %s by %s went through, yet the record is still stored: it can be claimed again or blocks" % (k, rid, sender))
             ctx.add("C03", "paid_out_record_still_stored", st["i"], "%s of %s by %s went through, yet the record is still stored" % (k, rid, sender))
+
+
+def m_c16_listed(ctx, st):
+    """C16: a listed item is never already unpurchasable - a purchase attempted in the very state in which the market
+    query listed the item, with a bucket that matches the ask, is not refused."""
+    seen = getattr(ctx.s, "market_seen", None)
+    op = st["op"]
+    if not seen or op["t"] != "exec" or op["msg"]["k"] != "buy" or st["outcome"] == "ok" or op.get("fail") is not None or op["funds"]:
+        return
+    listed = seen.get(st["i"] - 1)
+    if listed is None or op["msg"]["lid"] not in listed:
+        return
+    v = purchase_view(ctx, st["pre"], op["sender"], op["msg"]["lid"], op["msg"]["bid"])
+    l, b = v["l"], v["b"]
+    if l is None or b is None or gb_counter(b["funds"]) != gb_counter(l["ask"]) or (l["wl"] is not None and l["wl"] != op["sender"]):
+        return
+    if any(sum(x[1] for x in rates) > 5000 for rates in (v["seller_rates"], v["buyer_rates"])):
+        return
+    ctx.add("C16", "listed_but_purchase_refused", st["i"],
+            "the market query listed %s at %s, and a purchase with a matching bucket in that same state was refused: %s" % (op["msg"]["lid"], st["pre"]["time_ns"], st["err"][-120:]))
 
 
 def run_all(sess, ctx=None):
@@ -1016,4 +1057,5 @@ def run_all(sess, ctx=None):
         m_c15(ctx, st)
         m_c18(ctx, st)
         m_c19(ctx, st)
+        m_c16_listed(ctx, st)
     return ctx.findings
